@@ -6,6 +6,10 @@ Proof side (coq/Props/C20.v): the container protocol as a state machine over his
 refuted) and the effect discipline (read-only operations compose to the identity on the
 store, results are functions of the initial store).
 
+Second round (coq/Model/C20_Mut.v, C20_Alias.v, C20_Array.v): the container as a mutable object built from
+Part / PartGroup trees (item assignment, construction), shallow copy + reference replacement (unfolding a
+Part) on a heap with aliasing, array views that copy (slice_notearray_by_time).
+
 Tie to the source (this module):
  * container protocol: generated interleavings of several live iterators / len / indexing
    over real Score and Performance objects, observed results evaluated against the Coq model
@@ -403,6 +407,32 @@ def gen_part_spec(rng, pid="P0", rich=True, n_meas=None):
                 spec["rests"].append({"t": t, "d": d, "voice": v, "staff": staff, "sym": sd, "id": ("r%d" % nid) if has_id else None})
                 nid += 1
             t += d
+    if rich:
+        # a measure in which nothing starts (the MusicXML exporter has to write something for it without adding a rest to the part)
+        if n_meas >= 2 and rng.random() < 0.2:
+            k = rng.randrange(n_meas)
+            lo, hi = k * mlen, (k + 1) * mlen
+            spec["notes"] = [n for n in spec["notes"] if not (lo <= n["t"] < hi)]
+            spec["rests"] = [r for r in spec["rests"] if not (lo <= r["t"] < hi)]
+            spec["empty_measure"] = k
+        # polyphony INSIDE a voice: a longer note on an existing onset and a note that runs into the next onset of its voice
+        # (the exporter moves such notes to a free voice in its own lists; it must not write note.voice)
+        plain = [n for n in spec["notes"] if not n["grace"] and n["voice"] is not None and n["d"] > 0]
+        if plain and rng.random() < 0.25:
+            for _ in range(rng.choice([1, 2])):
+                a = rng.choice(plain)
+                d = min(total - a["t"], a["d"] + rng.choice([grid, 2 * grid, mlen]))
+                if d > a["d"]:
+                    spec["notes"].append({"t": a["t"] + rng.choice([0, 0, grid if a["d"] > grid else 0]), "d": d, "step": rng.choice(STEPS), "alter": None,
+                                          "oct": rng.randint(2, 6), "voice": a["voice"], "staff": a["staff"], "sym": None,
+                                          "id": ("n%d" % nid) if spec["ids"] != "none" else None, "grace": False})
+                    nid += 1
+                    spec["voice_polyphony"] = True
+        # a pickup measure: the first barline comes early (quarter_map(0) < 0: the anacrusis branches of the MIDI exporter)
+        if spec["measures"] and rng.random() < 0.2:
+            spec["pickup"] = rng.choice([grid, q]) if q < mlen else grid
+        if rng.random() < 0.15:
+            spec["musical_beat"] = True
     nn = len(spec["notes"])
     real = [i for i, n in enumerate(spec["notes"]) if not n["grace"]]
     if rich and len(real) >= 2:
@@ -497,6 +527,8 @@ def build_part(spec):
     mlen = spec["beats"] * q
     total = spec["n_meas"] * mlen
     p.add(S.TimeSignature(spec["beats"], 4), 0)
+    if spec.get("musical_beat") and not spec.get("ts2"):
+        p.add(S.TimeSignature(6, 8), (spec["n_meas"] // 2) * mlen)
     if spec.get("ts2"):
         p.add(S.TimeSignature(*spec["ts2"][1]), spec["ts2"][0])
     if spec.get("keysig"):
@@ -544,6 +576,8 @@ def build_part(spec):
         cls = {"fine": S.Fine, "dacapo": S.DaCapo, "segno": S.Segno, "dalsegno": S.DalSegno, "coda": S.Coda, "tocoda": S.ToCoda}[kind]
         p.add(cls(), t)
     if spec.get("measures", True):
+        if spec.get("pickup"):
+            p.add(S.Measure(number=0), 0, int(spec["pickup"]))
         S.add_measures(p)
     if spec.get("segments"):
         S.add_segments(p)
@@ -556,7 +590,8 @@ def build_part(spec):
 SCORE_KINDS = ["Score", "Part", "PartGroup", "PartList", "GroupList", "ScoreNoteArray"]
 PERF_KINDS = ["Performance", "PerformedPart", "PPartList", "PerfNoteArray"]
 ALIGN_KINDS = ["AlignPart", "AlignScore", "AlignLists", "AlignGroup"]
-ALL_KINDS = SCORE_KINDS + PERF_KINDS + ALIGN_KINDS
+NOTELIST_KINDS = ["NoteList"]  # (a caller's list of Note objects, the Part they belong to)
+ALL_KINDS = SCORE_KINDS + PERF_KINDS + ALIGN_KINDS + NOTELIST_KINDS
 _OLD_AS = {"score": "Score", "part": "Part", "list": "PartList", "performance": "Performance", "ppart": "PerformedPart"}
 NA_FLAGS = ["include_pitch_spelling", "include_key_signature", "include_time_signature", "include_metrical_position",
             "include_grace_notes", "include_staff", "include_divs_per_quarter"]
@@ -746,6 +781,8 @@ class ProtocolError(Exception):
 def family(kind):
     if kind in ("ScoreNoteArray", "PerfNoteArray"):
         return "na"
+    if kind == "NoteList":
+        return "notelist"
     if kind in SCORE_KINDS:
         return "score"
     if kind in PERF_KINDS:
@@ -810,6 +847,31 @@ def ep_note_array_from_part_list(args, prm):
     from partitura.utils.music import note_array_from_part_list
 
     return note_array_from_part_list(args[0], **dict(prm.get("flags", {})))
+
+
+def _try(f):
+    try:
+        return f()
+    except Exception:  # (a part without measures has no metrical positions)
+        return None
+
+
+def ep_note_array_from_note_list(args, prm):
+    """note_array_from_note_list given a list the CALLER owns (any order, with grace notes), with the maps of the part"""
+    from partitura.utils.music import note_array_from_note_list
+
+    notes, part = args
+    fl = dict(prm.get("flags", {}))
+    out = [note_array_from_note_list(notes), note_array_from_note_list(notes, beat_map=part.beat_map, quarter_map=part.quarter_map)]
+    out.append(note_array_from_note_list(
+        notes, beat_map=part.beat_map, quarter_map=part.quarter_map,
+        time_signature_map=part.time_signature_map if fl.get("include_time_signature") else None,
+        key_signature_map=part.key_signature_map if fl.get("include_key_signature") else None,
+        metrical_position_map=_try(lambda: part.metrical_position_map) if fl.get("include_metrical_position") else None,
+        include_pitch_spelling=bool(fl.get("include_pitch_spelling")), include_grace_notes=bool(fl.get("include_grace_notes")),
+        include_staff=bool(fl.get("include_staff")),
+        divs_per_quarter=int(part._quarter_durations[0]) if fl.get("include_divs_per_quarter") else None))
+    return out
 
 
 def ep_rest_array(args, prm):
@@ -911,13 +973,14 @@ def ep_views(args, prm):
 def ep_unfold_max(args, prm):
     import partitura.score as S
 
-    return S.unfold_part_maximal(args[0], update_ids=prm.get("update_ids", True), ignore_leaps=prm.get("ignore_leaps", True))
+    return probe_result(S.unfold_part_maximal(args[0], update_ids=prm.get("update_ids", True), ignore_leaps=prm.get("ignore_leaps", True)),
+                        "unfold_part_maximal")
 
 
 def ep_unfold_min(args, prm):
     import partitura.score as S
 
-    return S.unfold_part_minimal(args[0])
+    return probe_result(S.unfold_part_minimal(args[0]), "unfold_part_minimal")
 
 
 def ep_iter_unfolded(args, prm):
@@ -990,14 +1053,13 @@ def ep_transpose(args, prm):
     from partitura.utils.music import transpose
 
     num, qual, direction = prm.get("interval", [2, "M", "up"])
-    return transpose(args[0], S.Interval(num, qual, direction))
+    return probe_result(transpose(args[0], S.Interval(num, qual, direction)), "transpose")
 
 
-def ep_iterate(args, prm):
+def protocol_probe(c, what=""):
     """the container protocol used as a client would: nested loops, zip, two live iterators, list(), len and
-    indexing before / after / during an iteration.  Returns the observed sequences (compared between calls);
-    raises ProtocolError when they are not the parts in order."""
-    c = args[0]
+    indexing before / after / during an iteration.  Returns the observed sequences; raises ProtocolError when they
+    are not the items c[0] .. c[len(c) - 1] in order.  Never writes to c."""
     n = len(c)
     items = [c[i] for i in range(n)]
 
@@ -1037,8 +1099,24 @@ def ep_iterate(args, prm):
     }
     bad = [k for k in exp if got[k] != exp[k]]
     if bad:
-        raise ProtocolError("%s: got %s expected %s" % (bad[0], got[bad[0]], exp[bad[0]]))
+        raise ProtocolError("%s%s: got %s expected %s (positions are indices into [c[0] .. c[len(c)-1]], -1 = an object that is none of them)"
+                            % (what, bad[0], got[bad[0]], exp[bad[0]]))
     return [n, got]
+
+
+def probe_result(r, name):
+    """a Score / Performance RETURNED by an entry point is a container too: it must support the protocol"""
+    import partitura.performance as P
+    import partitura.score as S
+
+    if isinstance(r, (S.Score, P.Performance)):
+        protocol_probe(r, "on the %s returned by %s: " % (type(r).__name__, name))
+    return r
+
+
+def ep_iterate(args, prm):
+    """client iteration over the argument itself (compared between calls; ProtocolError when inconsistent)"""
+    return protocol_probe(args[0])
 
 
 def ep_save_performance_midi(args, prm):
@@ -1125,6 +1203,7 @@ ENTRY = {
     "matchfile_from_alignment": (ep_matchfile, _AK),
     "save_match": (ep_save_match, _AK),
     "unfold_part_alignment": (ep_unfold_alignment, _AK),
+    "note_array_from_note_list": (ep_note_array_from_note_list, ("NoteList",)),
 }
 
 
@@ -1166,6 +1245,22 @@ def gen_params(rng, work):
 # fingerprint and the results.
 
 
+def _cut_note_array(na, spec):
+    """a note array as a client may hold it: the notes from the k-th on (so that the first onset is not 0), some fields
+    dropped (track / channel: without them no entry point makes a filtered copy first)"""
+    k = spec.get("na_skip", 0)
+    if k and len(na) > k:
+        na = na[k:].copy()
+    drop = [f for f in spec.get("na_drop", []) if f in na.dtype.names]
+    if drop:
+        keep = [f for f in na.dtype.names if f not in drop]
+        out = np.empty(len(na), dtype=[(f, na.dtype[f]) for f in keep])
+        for f in keep:
+            out[f] = na[f]
+        na = out
+    return na
+
+
 def build_case(case):
     """case = {'kind': 'score'|'perf'|'align'|'file', 'spec': ...} -> (argument kind, args tuple)."""
     import partitura as pt
@@ -1185,7 +1280,18 @@ def build_case(case):
         if how == "GroupList":
             return how, (list(structure),)
         if how == "ScoreNoteArray":
-            return how, (sc.note_array(**{f: True for f in spec.get("na_flags", [])}),)
+            return how, (_cut_note_array(sc.note_array(**{f: True for f in spec.get("na_flags", [])}), spec),)
+        if how == "NoteList":
+            part = sc.parts[spec.get("part_index", 0) % len(sc.parts)]
+            notes = list(part.notes_tied if spec.get("notelist_tied", True) else part.notes)
+            order = spec.get("notelist_order", "asis")
+            if order == "reversed":
+                notes.reverse()
+            elif order == "shuffled":
+                import random
+
+                random.Random(spec.get("notelist_seed", 0)).shuffle(notes)
+            return how, (notes, part)
         return "Score", (sc,)
     if k == "perf":
         pf = build_perf(case["spec"])
@@ -1195,7 +1301,7 @@ def build_case(case):
         if how == "PPartList":
             return how, (list(pf.performedparts),)
         if how == "PerfNoteArray":
-            return how, (pf.note_array(),)
+            return how, (_cut_note_array(pf.note_array(), case["spec"]),)
         return "Performance", (pf,)
     if k == "align":
         how = case["spec"].get("as", "AlignPart")
@@ -1307,11 +1413,18 @@ def observe_transpose(case, interval):
 
 
 def build_container(spec):
-    """spec = {'type': 'score'|'performance', 'labels': [0, 1, 0 ...]} -- equal labels = the same
-    part object appearing more than once."""
+    """spec = {'type': 'score'|'performance', 'labels': [0, 1, 0 ...]} -- equal labels = the same part object appearing
+    more than once; or {'type': 'derived', ...} (section 6c), labelled by position.  -> (container, items, labels)"""
     import partitura.performance as P
     import partitura.score as S
 
+    if spec["type"] == "derived":
+        c = build_derived(spec)
+        items = [c[i] for i in range(len(c))]
+        labels = []
+        for i, o in enumerate(items):
+            labels.append(next(j for j, q in enumerate(items) if q is o))
+        return c, items, labels
     labels = spec["labels"]
     objs = {}
     for l in labels:
@@ -1327,14 +1440,14 @@ def build_container(spec):
         c = S.Score(items, id="c")
     else:
         c = P.Performance(items, id="c", ensure_unique_tracks=False)
-    return c, items
+    return c, items, labels
 
 
 def run_history(spec, hist):
     """hist: list of ['iter', k] | ['next', k] | ['len'] | ['get', i] -> observed results
     as tuples ('iter',) ('yield', label) ('stop',) ('len', n) ('item', label) ('indexerror',) ('other', text)."""
-    c, items = build_container(spec)
-    labels = spec["labels"]
+    c, items, labels = build_container(spec)
+    spec = dict(spec, labels=labels)
 
     def lab(o):
         for it, l in zip(items, labels):
@@ -1365,7 +1478,7 @@ def run_history(spec, hist):
         except Exception as e:
             out.append(("other", type(e).__name__))
     unchanged = fp_digest(fingerprint([c])) == fp0
-    return out, unchanged
+    return out, unchanged, labels
 
 
 def oracle_history(labels, hist):
@@ -1451,6 +1564,459 @@ def hist_term(labels, hist, obs):
 
 
 # ---------------------------------------------------------------------------------------
+# 6b. The container as a mutable object: construction from Part / PartGroup trees (Score.__init__, iter_parts),
+# item assignment (c[i] = part) and the protocol afterwards (Model.C20_Mut: score_init, mstep FromParts, mhist_ok).
+#
+# constructor argument (JSON): ["part", l] | ["group", [tree ...]] | ["list", [tree ...]] | ["tuple", [tree ...]] | ["other"]
+# tree: int label (a Part / PerformedPart; equal labels = the same object) | list of trees (a PartGroup)
+
+
+def gen_tree(rng, depth, counter, reuse):
+    if depth > 0 and rng.random() < (0.45 if depth >= 2 else 0.3):
+        return [gen_tree(rng, depth - 1, counter, reuse) for _ in range(rng.choice([0, 1, 2, 2, 3]))]
+    if reuse and counter[0] > 0 and rng.random() < 0.1:
+        return rng.randrange(counter[0])
+    counter[0] += 1
+    return counter[0] - 1
+
+
+def gen_container_arg(rng, typ):
+    counter = [0]
+    r = rng.random()
+    if r < 0.03:
+        return ["other"]
+    if typ == "performance":
+        if r < 0.15:
+            return ["part", 0]
+        n = rng.choice([0, 1, 2, 2, 3, 4])
+        return [rng.choice(["list", "list", "tuple"]), [gen_tree(rng, 0, counter, True) for _ in range(n)]]
+    if r < 0.12:
+        return ["part", 0]
+    if r < 0.27:
+        return ["group", [gen_tree(rng, 2, counter, False) for _ in range(rng.choice([0, 1, 2, 3]))]]
+    n = rng.choice([0, 1, 2, 2, 3, 4])
+    return [rng.choice(["list", "list", "tuple"]), [gen_tree(rng, rng.choice([0, 1, 2, 3]), counter, True) for _ in range(n)]]
+
+
+def tree_leaves(t):
+    return [t] if isinstance(t, int) else [x for c in t for x in tree_leaves(c)]
+
+
+def arg_leaves(arg):
+    if arg[0] == "part":
+        return [arg[1]]
+    if arg[0] == "other":
+        return None
+    return [x for t in arg[1] for x in tree_leaves(t)]
+
+
+class _Objs:
+    """label -> Part / PerformedPart, created on demand"""
+
+    def __init__(self, typ):
+        self.typ = typ
+        self.by_label = {}
+
+    def get(self, l):
+        import partitura.performance as P
+        import partitura.score as S
+
+        if l not in self.by_label:
+            if self.typ == "score":
+                p = S.Part("P%d" % l, quarter_duration=1)
+                p.add(S.Note("C", 4, id="n%d" % l, voice=1), 0, 1)
+                self.by_label[l] = p
+            else:
+                self.by_label[l] = P.PerformedPart([{"midi_pitch": 30 + l % 90, "note_on": 0.0, "note_off": 1.0, "velocity": 64, "id": "n%d" % l}], id="PP%d" % l)
+        return self.by_label[l]
+
+    def label(self, o):
+        for l, x in self.by_label.items():
+            if x is o:
+                return l
+        return -1
+
+
+def build_from_arg(typ, arg, objs):
+    """-> the container, or raises what the constructor raises"""
+    import partitura.performance as P
+    import partitura.score as S
+
+    def tree(t):
+        if isinstance(t, int):
+            return objs.get(t)
+        g = S.PartGroup(group_symbol="bracket", group_name="g", number=1)
+        g.children = [tree(c) for c in t]
+        for c in g.children:
+            c.parent = g
+        return g
+
+    if arg[0] == "other":
+        a = 5
+    elif arg[0] == "part":
+        a = objs.get(arg[1])
+    elif arg[0] == "group":
+        a = tree(list(arg[1]))
+    else:
+        a = [tree(t) for t in arg[1]]
+        if arg[0] == "tuple":
+            a = tuple(a)
+    if typ == "score":
+        return S.Score(a, id="c")
+    return P.Performance(a, id="c", ensure_unique_tracks=False)
+
+
+def structure_leaves(c, objs):
+    """the leaves of Score.part_structure in depth-first order, walked by the harness itself"""
+    import partitura.score as S
+
+    def walk(x):
+        if isinstance(x, S.PartGroup):
+            return [l for ch in x.children for l in walk(ch)]
+        return [objs.label(x)]
+
+    if hasattr(c, "part_structure"):
+        return [l for x in c.part_structure for l in walk(x)]
+    return [objs.label(x) for x in c.performedparts]
+
+
+def run_mhistory(typ, arg, hist):
+    """-> None when the constructor raised, else (observed results, parts at construction, structure leaves at
+    construction, container consistent at the end: None or the ProtocolError text)"""
+    objs = _Objs(typ)
+    try:
+        c = build_from_arg(typ, arg, objs)
+    except Exception:
+        return None
+    parts0 = [objs.label(c[i]) for i in range(len(c))]
+    leaves0 = structure_leaves(c, objs)
+    its = {}
+    out = []
+    for o in hist:
+        try:
+            if o[0] == "iter":
+                its[o[1]] = iter(c)
+                out.append(("iter",))
+            elif o[0] == "next":
+                try:
+                    out.append(("yield", objs.label(next(its[o[1]]))))
+                except StopIteration:
+                    out.append(("stop",))
+            elif o[0] == "len":
+                out.append(("len", len(c)))
+            elif o[0] == "get":
+                try:
+                    out.append(("item", objs.label(c[o[1]])))
+                except IndexError:
+                    out.append(("indexerror",))
+            elif o[0] == "set":
+                try:
+                    c[o[1]] = objs.get(o[2])
+                    out.append(("set",))
+                except IndexError:
+                    out.append(("setindexerror",))
+        except Exception as e:
+            out.append(("other", type(e).__name__))
+    try:
+        protocol_probe(c)
+        final = None
+    except ProtocolError as e:
+        final = str(e)
+    except Exception as e:
+        final = "probe raised %s" % type(e).__name__
+    return out, parts0, leaves0, final
+
+
+def oracle_mhistory(arg, hist):
+    """independent Python statement: every handle has its own cursor over the CURRENT items; results of next() on a
+    handle bound before the latest successful item assignment are not constrained (None = masked)."""
+    items = list(arg_leaves(arg))
+    n = len(items)
+    cur, born, gen = {}, {}, 0
+    out = []
+    for o in hist:
+        if o[0] == "iter":
+            cur[o[1]] = 0
+            born[o[1]] = gen
+            out.append(("iter",))
+        elif o[0] == "next":
+            k = o[1]
+            if cur[k] < n:
+                r = ("yield", items[cur[k]])
+                cur[k] += 1
+            else:
+                r = ("stop",)
+            out.append(r if born[k] == gen else None)
+        elif o[0] == "len":
+            out.append(("len", n))
+        elif o[0] == "get":
+            out.append(("item", items[o[1]]) if -n <= o[1] < n else ("indexerror",))
+        else:
+            if -n <= o[1] < n:
+                items[o[1]] = o[2]
+                gen += 1
+                out.append(("set",))
+            else:
+                out.append(("setindexerror",))
+    return out
+
+
+def mhist_agrees(obs, exp):
+    return len(obs) == len(exp) and all((e is None and o[0] in ("yield", "stop")) or o == e for o, e in zip(obs, exp))
+
+
+def gen_mhistory(rng, n, length, handles=3):
+    hist = []
+    bound = set()
+    fresh = [100]
+    for _ in range(length):
+        r = rng.random()
+        if r < 0.17 or not bound and r < 0.45:
+            k = rng.randrange(handles)
+            bound.add(k)
+            hist.append(["iter", k])
+        elif r < 0.62 and bound:
+            hist.append(["next", rng.choice(sorted(bound))])
+        elif r < 0.70:
+            hist.append(["len"])
+        elif r < 0.82:
+            hist.append(["get", rng.randint(-n - 2, n + 1)])
+        else:
+            if rng.random() < 0.25 and n > 0:
+                lab = rng.randrange(n)  # an object that is in the container already
+            else:
+                lab = fresh[0]
+                fresh[0] += 1
+            hist.append(["set", rng.randint(-n - 1, n), lab])
+    return hist
+
+
+def coq_tree(t):
+    return "(PLeaf %s)" % cz(t) if isinstance(t, int) else "(PGroup %s)" % ("(@nil (ptree Z))" if not t else clist([coq_tree(c) for c in t]))
+
+
+def coq_arg(arg):
+    if arg[0] == "other":
+        return "(@ArgOther Z)"
+    if arg[0] == "part":
+        return "(ArgPart %s)" % cz(arg[1])
+    ts = "(@nil (ptree Z))" if not arg[1] else clist([coq_tree(t) for t in arg[1]])
+    return "(%s %s)" % ("ArgGroup" if arg[0] == "group" else "ArgList", ts)
+
+
+def coq_mop(o):
+    if o[0] == "set":
+        return "(MSet %s %s)" % (cz(o[1]), cz(o[2]))
+    return "(MO %s)" % coq_op(o)
+
+
+def coq_mres(r):
+    if r[0] == "set":
+        return "MSetDone"
+    if r[0] == "setindexerror":
+        return "MSetIndexError"
+    return "(MR %s)" % coq_res(r)
+
+
+def czlist(xs):
+    return "(@nil Z)" if not xs else clist([cz(x) for x in xs])
+
+
+def mhist_term(arg, hist, obs):
+    return ctuple([coq_arg(arg), "(@nil (mop Z))" if not hist else clist([coq_mop(o) for o in hist]),
+                   "(@nil (mres Z))" if not obs else clist([coq_mres(r) for r in obs])])
+
+
+# ---------------------------------------------------------------------------------------
+# 6c. Containers DERIVED from a generated score / performance: the Score returned by unfold_part_maximal / minimal,
+# transpose, copy.deepcopy; a Score / Performance after an item assignment.  Items are labelled by their position in
+# [c[0] .. c[len(c)-1]] taken when the container is handed over.
+
+DERIVED = ["unfold_part_maximal", "unfold_part_minimal", "transpose", "deepcopy", "setitem", "setitem_perf"]
+
+
+def build_derived(spec):
+    import copy
+
+    import partitura.score as S
+    from partitura.utils.music import transpose
+
+    how = spec["how"]
+    if how == "setitem_perf":
+        c = build_perf(spec["perf"])
+        c[spec["index"] % len(c)] = build_ppart(spec["other"])
+        return c
+    sc, _, _ = build_score(spec["score"])
+    if how == "unfold_part_maximal":
+        return S.unfold_part_maximal(sc)
+    if how == "unfold_part_minimal":
+        return S.unfold_part_minimal(sc)
+    if how == "transpose":
+        return transpose(sc, S.Interval(2, "M", "up"))
+    if how == "deepcopy":
+        return copy.deepcopy(sc)
+    if how == "setitem":
+        sc[spec["index"] % len(sc)] = build_part(spec["other"])
+        return sc
+    raise ValueError(how)
+
+
+def gen_derived_spec(rng, how):
+    if how == "setitem_perf":
+        return {"type": "derived", "how": how, "perf": gen_perf_spec(rng), "other": gen_ppart_spec(rng, "PPx"), "index": rng.randrange(6)}
+    ss = gen_score_spec(rng)
+    ss["as"] = "Score"
+    if how.startswith("unfold") and rng.random() < 0.7:
+        # at least one part that really unfolds to something else
+        ss["parts"][0]["repeats"] = ss["parts"][0]["repeats"] or [[0, ss["parts"][0]["beats"] * ss["parts"][0]["q"]]]
+    if rng.random() < 0.6 and len(ss["parts"]) >= 2:
+        ss["group"] = True
+    spec = {"type": "derived", "how": how, "score": ss}
+    if how == "setitem":
+        spec["other"] = gen_part_spec(rng, "Px", n_meas=2)
+        spec["index"] = rng.randrange(6)
+    return spec
+
+
+# ---------------------------------------------------------------------------------------
+# 6d. Shallow copy + reference replacement on real Note / Slur / Tuplet objects (the mechanism of unfolding a Part:
+# ScoreVariant.create_variant_part does  o_copy = copy(o); o_map[o] = o_copy  and later  o_copy.replace_refs(o_map)),
+# observed as a heap and compared with Model.C20_Alias.variant FreshList.
+#
+# spec: {"notes": [{attr: target label | None | [labels]}], "links": [{"kind": "slur"|"tuplet", "start": l|None, "end": l|None}], "sel": [labels]}
+# labels: notes 0..n-1, then the links.
+
+NOTE_LISTS = ["slur_stops", "slur_starts", "tuplet_stops", "tuplet_starts"]
+
+
+def gen_alias_spec(rng):
+    nn = rng.randint(1, 5)
+    nl = rng.randint(0, 4)
+    notes = []
+    for i in range(nn):
+        # (ties point forward / backward in the population: no tie cycles, whose __str__ would recurse for ever)
+        d = {"tie_prev": rng.randrange(i) if i > 0 and rng.random() < 0.35 else None,
+             "tie_next": rng.randrange(i + 1, nn) if i + 1 < nn and rng.random() < 0.35 else None}
+        for a in NOTE_LISTS:
+            d[a] = [nn + rng.randrange(nl) for _ in range(rng.choice([0, 0, 1, 1, 2, 3]))] if nl else []
+        notes.append(d)
+    links = [{"kind": rng.choice(["slur", "tuplet"]), "start": rng.randrange(nn) if rng.random() < 0.85 else None,
+              "end": rng.randrange(nn) if rng.random() < 0.85 else None} for _ in range(nl)]
+    pop = list(range(nn + nl))
+    rng.shuffle(pop)
+    sel = pop[: rng.randint(0, len(pop))]
+    return {"notes": notes, "links": links, "sel": sel}
+
+
+def build_alias_population(spec):
+    import partitura.score as S
+
+    notes = [S.Note("C", 4, id="n%d" % i, voice=1) for i in range(len(spec["notes"]))]
+    links = [(S.Slur() if l["kind"] == "slur" else S.Tuplet()) for l in spec["links"]]
+    objs = notes + links
+    for n, d in zip(notes, spec["notes"]):
+        n.tie_prev = None if d["tie_prev"] is None else objs[d["tie_prev"]]
+        n.tie_next = None if d["tie_next"] is None else objs[d["tie_next"]]
+        for a in NOTE_LISTS:
+            setattr(n, a, [objs[j] for j in d[a]])
+    for o, l in zip(links, spec["links"]):
+        # (the private attributes: the public setters register the link with the notes)
+        o._start_note = None if l["start"] is None else objs[l["start"]]
+        o._end_note = None if l["end"] is None else objs[l["end"]]
+    return objs
+
+
+def observe_heap(objs, list_addr, keep):
+    """-> (objects: per object the values of its _ref_attrs, lists: address -> element labels); `list_addr` maps id(list) ->
+    address and is extended in traversal order"""
+    lab = {id(o): i for i, o in enumerate(objs)}
+    rows = []
+    for o in objs:
+        row = []
+        for a in o._ref_attrs:
+            v = getattr(o, a)
+            if v is None:
+                row.append(("ref", None))
+            elif isinstance(v, list):
+                if id(v) not in list_addr:
+                    list_addr[id(v)] = len(list_addr)
+                    keep.append(v)
+                row.append(("list", list_addr[id(v)]))
+            else:
+                row.append(("ref", lab.get(id(v), 4999)))
+        rows.append(row)
+    lists = [None] * len(list_addr)
+    for v in keep:
+        lists[list_addr[id(v)]] = [None if e is None else lab.get(id(e), 4999) for e in v]
+    return rows, lists
+
+
+def run_alias(spec):
+    """copy the selected objects, replace the references of the copies (as create_variant_part does), observe the heap"""
+    import copy
+    import warnings
+
+    objs = build_alias_population(spec)
+    list_addr, keep = {}, []
+    before = observe_heap(objs, list_addr, keep)
+    copies = [copy.copy(objs[o]) for o in spec["sel"]]
+    o_map = {}
+    for o, c in zip(spec["sel"], copies):
+        o_map[objs[o]] = c
+    with warnings.catch_warnings():
+        warnings.simplefilter("ignore")
+        for c in copies:
+            c.replace_refs(o_map)
+    # number the lists the copies hold now (new ones in the order copy, attribute), then look at everything
+    observe_heap(copies, list_addr, keep)
+    after = observe_heap(objs + copies, list_addr, keep)
+    return before, after
+
+
+def coq_heap(h):
+    rows, lists = h
+
+    def attr(a):
+        if a[0] == "list":
+            return "(AList %s)" % cnat(a[1])
+        return "(ARef %s)" % copt(a[1], cnat)
+
+    return "(mk_aheap %s %s)" % ("(@nil (list attr))" if not rows else clist(["(@nil attr)" if not r else clist([attr(a) for a in r]) for r in rows]),
+                                 "(@nil (list (option nat)))" if not lists else
+                                 clist(["(@nil (option nat))" if not l else clist([copt(e, cnat) for e in l]) for l in lists]))
+
+
+# ---------------------------------------------------------------------------------------
+# 6e. Array views that copy: slice_notearray_by_time on integer note arrays (only *_div time columns, so that the
+# comparison with Model.C20_Array.slice is exact).  rows = [onset_div, duration_div, pitch]
+
+
+def gen_slice_case(rng):
+    n = rng.choice([0, 1, 2, 3, 4, 5, 6, 8])
+    rows = [[rng.randint(0, 20), rng.choice([0, 1, 2, 3, 6, 10]), rng.randint(40, 80)] for _ in range(n)]
+    if rng.random() < 0.4:
+        rows.sort()  # contiguous active rows (where returning a view is tempting)
+    start = rng.randint(-2, 18)
+    return {"rows": rows, "start": start, "stop": start + rng.randint(0, 12), "clip": rng.random() < 0.6}
+
+
+def run_slice(case):
+    from partitura.utils.music import slice_notearray_by_time
+
+    na = np.array([tuple(r) for r in case["rows"]], dtype=[("onset_div", "i4"), ("duration_div", "i4"), ("pitch", "i4")])
+    res = slice_notearray_by_time(na, case["start"], case["stop"], clip_onset_duration=case["clip"])
+
+    def rows(a):
+        return [[int(r["onset_div"]), int(r["duration_div"]), int(r["pitch"])] for r in a]
+
+    return rows(res), rows(na)
+
+
+def coq_rows(rs):
+    return "(@nil (list Z))" if not rs else clist([clist([cz(x) for x in r]) for r in rs])
+
+
+# ---------------------------------------------------------------------------------------
 # 7. Negative side: documented in-place operations change the fingerprint; and the
 # fingerprint is sensitive to every kind of small direct write (self-test of the observer).
 
@@ -1510,6 +2076,16 @@ def direct_writes(kind, args):
         fld = [f for f in na.dtype.names if f.startswith("onset")][0]
         w("note array onset", len(na) > 0, lambda: na[fld].__setitem__(len(na) - 1, na[fld][-1] + 1))
         w("note array order", len(na) > 1 and na[0] != na[-1], lambda: na.__setitem__(slice(None), na[::-1].copy()))
+    elif kind == "notelist":
+        nl, part = args
+
+        def w(name, cond, f):
+            W.append((name, (lambda: (f() or True) if cond else False)))
+
+        w("note list order", len(nl) > 1 and nl[0] is not nl[-1], lambda: nl.reverse())
+        w("note list length", len(nl) > 0, lambda: nl.pop())
+        w("note list element voice", len(nl) > 0, lambda: setattr(nl[-1], "voice", (nl[-1].voice or 0) + 1))
+        w("part of the note list: part_name", True, lambda: setattr(part, "part_name", "renamed"))
     elif kind == "score":
         x = args[0]
         parts = _parts_of(x)
@@ -1730,7 +2306,17 @@ def run(ctx):
                 "normally; plus distinct container histories that contain at least two live iterators. history cases: random interleavings of "
                 "iter/next/len/index over real Score/Performance objects with 0-5 parts (incl. the same part twice) and all valid histories up to "
                 "length 4 (quick) / 6 (thorough) over {iter 0, iter 1, next 0, next 1, len, c[-1]} on a two-part Score and Performance; client "
-                "iteration (nested, zip(c, c), two live iterators, len/index during an iteration) on every generated Score / Performance.")
+                "iteration (nested, zip(c, c), two live iterators, len/index during an iteration) on every generated Score / Performance and on every "
+                "Score / Performance an entry point returns. mutable container: histories that also contain item assignments c[i] = part on Scores built "
+                "from a Part, a PartGroup, lists / tuples of Parts and PartGroups nested up to depth 3 and on Performances (distinct non-trivial = "
+                "distinct (constructor argument, history) with at least one successful assignment); the same read-only histories on containers derived "
+                "from generated scores (returned by unfold_part_maximal / minimal, transpose, deepcopy; after c[i] = part). alias cases: populations of "
+                "1-5 real Notes and 0-4 Slurs / Tuplets with ties and link lists, a random selection copied and reference-replaced (non-trivial = a "
+                "copied object holds a non-empty list). slice cases: integer note arrays of 0-8 rows, windows before / inside / after the notes, 60% "
+                "with clipping (non-trivial = clipping touches a selected row). Further argument kind: a caller's note list (given / reversed / "
+                "shuffled) with its Part for note_array_from_note_list; note-array arguments start at 0 or later and come with and without "
+                "track / channel fields; 20% of parts have a measure in which nothing starts, 25% polyphony inside a voice, 20% a pickup measure, "
+                "15% use_musical_beat with a 6/8 signature.")
     ctx.trusted = ["Coq 8.16.1 kernel incl. vm_compute", "harness/props/c20.py: the fingerprint (what it reads of the objects), the generators and "
                    "the canonical form of results", "CPython object identity (id) while the objects are alive",
                    "that an entry point's footprint on the sampled arguments is representative (the footprints are OBSERVED, not proved)"]
@@ -1738,10 +2324,13 @@ def run(ctx):
                        "of the argument's state: unobservable through iter_starting/iter_ending/iter_all/iter_prev/iter_next/pretty/remove",
                        "an exception raised by an entry point is not a C20 violation by itself (the argument must still be unchanged and the "
                        "same exception type must be raised again)",
-                       "parts of a container are not replaced while iterators are live (the model's part list is constant)"]
+                       "an iterator created BEFORE an item assignment c[i] = part and advanced after it is not constrained beyond yielding or "
+                       "stopping (the code shows the new item, a snapshot would satisfy the property as well); direct assignment to "
+                       "score.parts / score.part_structure is not an operation of the protocol",
+                       "what slice_notearray_by_time writes into a row when clipping is not compared (only that it is written into a copy)"]
     ctx.matchers[K1] = _k1_matcher
 
-    ok, why = ctx.coq_props(expect_min=26)
+    ok, why = ctx.coq_props(expect_min=43)
     proof_ok = ok
     nviol0 = len(ctx.violations)
 
@@ -1764,13 +2353,31 @@ def run(ctx):
         hcases.append(({"type": typ, "labels": [0, 1]},
                        [["iter", 0], ["next", 0], ["iter", 1], ["next", 1], ["next", 1], ["next", 1], ["next", 0], ["iter", 1],
                         ["next", 1], ["next", 1], ["next", 1], ["next", 0]]))
+    # containers DERIVED from generated scores / performances: what unfold_part_maximal / minimal, transpose and deepcopy return for
+    # a Score, and a Score / Performance after c[i] = part (every kind in every run)
+    full_walk = [["iter", 0], ["next", 0], ["iter", 1], ["next", 1], ["len"], ["get", 0], ["get", -1], ["next", 0], ["next", 1], ["next", 0],
+                 ["next", 1], ["next", 0], ["next", 1], ["next", 0], ["next", 1], ["get", 1], ["get", 2], ["get", -3], ["len"]]
+    for r in range(2 if quick else 12):
+        for how in DERIVED:
+            dspec = gen_derived_spec(rng, how)
+            hcases.append((dspec, full_walk if r == 0 else gen_history(rng, 3, rng.randint(8, 30))))
     terms = []
     hist_bad = []
+
+    def show(spec):
+        return "%s(%s)" % (spec["how"], "generated " + ("performance" if "perf" in spec else "score")) if spec["type"] == "derived" else spec["type"]
+
     for idx, (spec, hist) in enumerate(hcases):
-        obs, unchanged = run_history(spec, hist)
-        exp = oracle_history(spec["labels"], hist)
+        try:
+            obs, unchanged, labels = run_history(spec, hist)
+        except Exception as e:
+            if spec["type"] != "derived":
+                raise
+            ctx.count("derived container could not be built/%s/%s" % (spec["how"], type(e).__name__))
+            continue
+        exp = oracle_history(labels, hist)
         ctx.evaluations += 1
-        ctx.count("history/" + spec["type"])
+        ctx.count("history/" + (spec["type"] if spec["type"] != "derived" else "derived/" + spec["how"]))
         live = len({o[1] for o in hist if o[0] == "iter"})
         if live >= 2:
             ctx.nontrivial(["hist", spec, hist])
@@ -1785,43 +2392,138 @@ def run(ctx):
                 def fails(sub, spec=spec, answers_wrong=answers_wrong):
                     # shrink towards the same kind of failure (wrong answers before "container changed")
                     try:
-                        o2, u2 = run_history(spec, sub)
-                        return o2 != oracle_history(spec["labels"], sub) if answers_wrong else not u2
+                        o2, u2, l2 = run_history(spec, sub)
+                        return o2 != oracle_history(l2, sub) if answers_wrong else not u2
                     except Exception:
                         return False
                 small = core.ddmin(hist, fails) if fails(hist) else hist
-                o2, u2 = run_history(spec, small)
-                ctx.violation("container protocol: %s with parts %s, history %s answered %s, expected %s%s"
-                              % (spec["type"], spec["labels"], small, o2, oracle_history(spec["labels"], small),
+                o2, u2, l2 = run_history(spec, small)
+                ctx.violation("container protocol: %s with parts %s (labels = positions in [c[0] .. c[len-1]]; -1 = an object that is none of them), "
+                              "history %s answered %s, expected %s%s"
+                              % (show(spec), l2, small, o2, oracle_history(l2, small),
                                  "" if u2 else " (and the container's fingerprint changed)"),
                               {"kind": "history", "spec": spec, "history": small, "observed": [list(x) for x in o2],
-                               "expected": [list(x) for x in oracle_history(spec["labels"], small)], "container_unchanged": u2})
-        terms.append(hist_term(spec["labels"], hist, obs))
+                               "expected": [list(x) for x in oracle_history(l2, small)], "container_unchanged": u2})
+        terms.append((idx, hist_term(labels, hist, obs)))
         if idx < 2:
             ctx.sample({"container": spec, "history": hist, "observed": [list(x) for x in obs]})
+    term_idx = [i for i, _ in terms]
+    terms = [t for _, t in terms]
     try:
-        failing = ctx.coq_failing("hist", "From PV Require Import Lib.Base Model.C20.", "", terms, "hist_ok", shard=600)
-        detail = "" if not failing else "cases %s e.g. %s" % (failing[:5], hcases[failing[0]])
+        failing = [term_idx[i] for i in ctx.coq_failing("hist", "From PV Require Import Lib.Base Model.C20.", "", terms, "hist_ok", shard=600)]
+        detail = "" if not failing else "cases %s e.g. %s" % (failing[:5], json.dumps(hcases[failing[0]], default=str)[:600])
     except RuntimeError as e:
         failing, detail = [-1], str(e)[-800:]
-    ctx.obligation("correspondence: Score/Performance answer %d interleaved iter/next/len/index histories exactly as Model.C20.run_fresh (Coq hist_ok)"
+    ctx.obligation("correspondence: Score/Performance (built directly; returned by unfold_part_maximal/minimal, transpose, deepcopy of a Score; after "
+                   "c[i] = part) answer %d interleaved iter/next/len/index histories exactly as Model.C20.run_fresh (Coq hist_ok)"
                    % len(terms), not failing, detail)
     ctx.obligation("direct oracle: every iterator handle visits every part once in order in all %d histories; container fingerprint unchanged" % len(hcases),
                    not hist_bad, hist_bad[:5])
     for i in failing:
         if i >= 0 and i not in hist_bad:
             spec, hist = hcases[i]
-            obs, _ = run_history(spec, hist)
-            ctx.violation("container protocol: implementation and Coq model disagree on %s parts %s history %s observed %s" % (spec["type"], spec["labels"], hist, obs),
+            obs, _, labels = run_history(spec, hist)
+            ctx.violation("container protocol: implementation and Coq model disagree on %s parts %s history %s observed %s" % (show(spec), labels, hist, obs),
                           {"kind": "history", "spec": spec, "history": hist, "observed": [list(x) for x in obs]})
             break
     if failing == [-1]:
         ctx.violation("Coq evaluation of the container model failed: " + detail, {"kind": "coq"}, no_input=True)
+
+    # ---- (a2) the container as a mutable object: construction from trees, item assignment ----------
+    mcases = []  # (typ, arg, hist)
+    for i in range(300 if quick else 3000):
+        typ = rng.choice(["score", "score", "performance"])
+        arg = gen_container_arg(rng, typ)
+        leaves = arg_leaves(arg)
+        mcases.append((typ, arg, [] if leaves is None else gen_mhistory(rng, len(leaves), rng.randint(2, 30))))
+    # every bounded shape: all trees with up to 3 leaves nested up to depth 2 would be many; the shapes the dispatch distinguishes
+    for typ, arg in (("score", ["part", 0]), ("score", ["group", [0, 1]]), ("score", ["group", [[0], [1, [2]]]]), ("score", ["list", [[0, 1], 2]]),
+                     ("score", ["tuple", [0, [1]]]), ("score", ["list", []]), ("score", ["group", []]), ("score", ["list", [[], 0, [[]]]]),
+                     ("performance", ["part", 0]), ("performance", ["list", [0, 1]]), ("performance", ["tuple", [0, 1, 0]]), ("score", ["other"]),
+                     ("performance", ["other"])):
+        n = len(arg_leaves(arg) or [])
+        walk = [["set", 1, 50], ["iter", 0]] + [["next", 0]] * (n + 1) + [["get", j] for j in range(-n, n)] + [["len"], ["set", -1, 51], ["set", n, 52],
+                                                                                                              ["iter", 1]] + [["next", 1]] * (n + 1)
+        mcases.append((typ, arg, [] if arg[0] == "other" else walk))
+    mterms, iterms, m_bad, init_bad, raised_bad = [], [], [], [], []
+    for idx, (typ, arg, hist) in enumerate(mcases):
+        ob = run_mhistory(typ, arg, hist)
+        ctx.evaluations += 1
+        ctx.count("mutable container/%s/%s%s" % (typ, arg[0], "" if arg[0] in ("part", "other") or all(isinstance(t, int) for t in arg[1]) else " with groups"))
+        if ob is None:
+            if arg[0] != "other":
+                raised_bad.append(idx)
+            mterms.append(mhist_term(arg, [], []))
+            continue
+        obs, parts0, leaves0, final = ob
+        if arg[0] == "other":
+            raised_bad.append(idx)
+            continue
+        nsets = sum(1 for r in obs if r == ("set",))
+        ctx.count("mutable container/successful item assignments in the history: %s" % (nsets if nsets < 3 else "3+"))
+        if nsets:
+            ctx.nontrivial(["mhist", typ, arg, hist])
+        exp = oracle_mhistory(arg, hist)
+        if not mhist_agrees(obs, exp) or final is not None:
+            m_bad.append(idx)
+            if len(m_bad) <= 2:
+                def mfails(sub, typ=typ, arg=arg):
+                    bound = set()
+                    for op in sub:  # a next() needs its iter()
+                        if op[0] == "iter":
+                            bound.add(op[1])
+                        elif op[0] == "next" and op[1] not in bound:
+                            return False
+                    try:
+                        o = run_mhistory(typ, arg, sub)
+                        return o is not None and (not mhist_agrees(o[0], oracle_mhistory(arg, sub)) or o[3] is not None)
+                    except Exception:
+                        return False
+                small = core.ddmin(hist, mfails) if mfails(hist) else hist
+                o2 = run_mhistory(typ, arg, small)
+                ctx.violation("container protocol after item assignment: %s built from %s, history %s answered %s, expected %s (None = not constrained)%s"
+                              % (typ, arg, small, o2[0], oracle_mhistory(arg, small),
+                                 "" if o2[3] is None else "; afterwards len / indexing / iteration of the container disagree: " + o2[3][:300]),
+                              {"kind": "mhistory", "type": typ, "arg": arg, "history": small, "observed": [list(x) for x in o2[0]],
+                               "expected": [None if x is None else list(x) for x in oracle_mhistory(arg, small)], "final": o2[3]})
+        if parts0 != arg_leaves(arg) or leaves0 != arg_leaves(arg):
+            init_bad.append(idx)
+            if len(init_bad) == 1:
+                ctx.violation("container construction: %s(%s) holds parts %s and structure leaves %s, expected the depth-first leaves %s"
+                              % (typ, arg, parts0, leaves0, arg_leaves(arg)),
+                              {"kind": "mhistory", "type": typ, "arg": arg, "history": [], "parts": parts0, "leaves": leaves0})
+        mterms.append(mhist_term(arg, hist, obs))
+        iterms.append(ctuple([coq_arg(arg), czlist(parts0), czlist(leaves0)]))
+        if idx < 2:
+            ctx.sample({"container": typ, "constructor argument": arg, "history": hist, "observed": [list(x) for x in obs]})
+    imp = "From PV Require Import Lib.Base Model.C20 Model.C20_Mut."
+    try:
+        mfail = ctx.coq_failing("mhist", imp, "", mterms, "mhist_ok", shard=400)
+        ifail = ctx.coq_failing("minit", imp, "", iterms, "init_ok", shard=2000)
+        mdetail = ""
+    except RuntimeError as e:
+        mfail, ifail, mdetail = [-1], [-1], str(e)[-800:]
+    ctx.obligation("correspondence: Score / Performance built from %d constructor arguments (a Part, a PartGroup, lists / tuples of Parts and nested "
+                   "PartGroups, the same part twice, something else) hold the parts and the structure Model.C20_Mut.score_init computes (Coq init_ok), "
+                   "and raise exactly where it returns None" % len(iterms), not ifail and not raised_bad, mdetail or (ifail[:5], raised_bad[:5]))
+    ctx.obligation("correspondence: %d histories of iter/next/len/index AND item assignment c[i] = part on these containers answered as "
+                   "Model.C20_Mut.mstep FromParts (Coq mhist_ok; next() of an iterator bound before an assignment is only required to yield or stop)"
+                   % len(mterms), not mfail, mdetail or mfail[:5])
+    ctx.obligation("direct oracle: after every such history len, indexing, list(c), nested / zipped / interleaved iteration of the container agree "
+                   "(the item assigned is visited, the item replaced is not); construction flattens depth first", not m_bad and not init_bad,
+                   (m_bad[:5], init_bad[:5]))
+    if (mfail or ifail or raised_bad) and not m_bad and not init_bad:
+        j = (mfail + ifail + raised_bad)[0]
+        ctx.violation("container model (Model.C20_Mut) and implementation disagree: %s %s"
+                      % (mdetail[:300], json.dumps(mcases[j], default=str)[:500] if 0 <= j < len(mcases) else ""),
+                      {"kind": "mhistory", "type": mcases[j][0], "arg": mcases[j][1], "history": mcases[j][2]} if 0 <= j < len(mcases) else {"kind": "coq"},
+                      no_input=not (0 <= j < len(mcases)))
+
     # the same protocol used through Python's own loop constructs
     idiom_bad = []
     for typ in ("score", "performance"):
         for labels in ([], [0], [0, 1], [0, 1, 2], [0, 1, 0], [0, 1, 2, 3]):
-            c, items = build_container({"type": typ, "labels": labels})
+            c, items, _ = build_container({"type": typ, "labels": labels})
             n = len(items)
             idx = {id(o): i for i, o in reversed(list(enumerate(items)))}
             got = {
@@ -1857,7 +2559,7 @@ def run(ctx):
     ctx.log("container protocol: %d histories, %d disagreeing" % (len(hcases), len(hist_bad)))
 
     # ---- (b) footprints ----------------------------------------------------------------
-    n_cases = 54 if quick else 520
+    n_cases = 64 if quick else 520
     rounds = 1 if quick else 3
     cases = [{k: v for k, v in c.items() if k != "thorough"} for c in FIXTURES if not (quick and c.get("thorough"))]
     # generated arguments: the argument KIND goes round robin inside each family (shuffled start), so that every
@@ -1867,7 +2569,7 @@ def run(ctx):
     fam_list = [f for f, n in sorted(fam_n.items()) for _ in range(n)]
     rng.shuffle(fam_list)
     cyc = {}
-    for fam, kinds in (("score", SCORE_KINDS), ("perf", PERF_KINDS), ("align", ALIGN_KINDS)):
+    for fam, kinds in (("score", SCORE_KINDS + NOTELIST_KINDS), ("perf", PERF_KINDS), ("align", ALIGN_KINDS)):
         order = list(kinds)
         rng.shuffle(order)
         cyc[fam] = [order, 0]
@@ -1878,6 +2580,14 @@ def run(ctx):
         spec["as"] = order[i % len(order)]
         if fam == "score":
             spec["part_index"] = rng.randrange(3)
+            if spec["as"] == "ScoreNoteArray":
+                spec["na_skip"] = rng.choice([0, 1, 2, 3])
+            if spec["as"] == "NoteList":
+                spec.update(notelist_order=rng.choice(["asis", "reversed", "shuffled", "shuffled"]), notelist_seed=rng.randrange(1 << 20),
+                            notelist_tied=rng.random() < 0.6)
+        if fam == "perf" and spec["as"] == "PerfNoteArray":
+            spec["na_skip"] = rng.choice([0, 1, 2])
+            spec["na_drop"] = rng.choice([[], ["track", "channel"], ["track", "channel"], ["channel"]])
         cases.append({"kind": fam, "spec": spec})
     traces = []
     mut_entries = defaultdict(int)
@@ -1900,6 +2610,14 @@ def run(ctx):
         n_calls += len(sched)
         ctx.evaluations += len(sched)
         ctx.count("argument/" + kind + ("/file" if case["kind"] == "file" else ""))
+        if kind in ("ScoreNoteArray", "PerfNoteArray"):
+            try:
+                na0 = build_case(case)[1][0]
+                on = [f for f in na0.dtype.names if f.startswith("onset")][0]
+                ctx.count("note array/%s" % ("empty" if len(na0) == 0 else "first onset is 0" if float(na0[on].min()) == 0 else "first onset is not 0"))
+                ctx.count("note array/%s channel field" % ("with" if "channel" in na0.dtype.names else "without"))
+            except Exception:
+                pass
         if case["kind"] == "score":
             for ps in case["spec"]["parts"]:
                 nav = "+".join(sorted((["repeat"] if ps["repeats"] else []) + (["volta"] if ps["endings"] else []) + [k for k, _ in ps["nav"]])) or "none"
@@ -1910,6 +2628,9 @@ def run(ctx):
                     ctx.count("part/link cluster %s %s %s" % tuple(ps["link_cluster"][:3]))
                 if any(n["sym"] is None for n in ps["notes"]):
                     ctx.count("part/has notes without symbolic duration")
+                for feat in ("empty_measure", "voice_polyphony", "pickup", "musical_beat"):
+                    if ps.get(feat) not in (None, False):
+                        ctx.count("part/" + feat)
         key = json.dumps(case, sort_keys=True, default=str)
         for n, v in results.items():
             outcome[n][0 if v[0] == "ok" else 1] += 1
@@ -1969,7 +2690,7 @@ def run(ctx):
     ctx.extra["entry_kind_pairs_never_returned"] = sorted("%s(%s)" % (n, k) for (n, k), rec in by_ek.items() if rec["ok"] == 0)
     ctx.obligation("footprint per (entry point, argument kind): all %d planned pairs (%d entry points x the kinds Score, Part, PartGroup, list of Parts, "
                    "list with PartGroups, score note array, Performance, PerformedPart, list of PerformedParts, performance note array, 4 alignment "
-                   "shapes) were exercised" % (len(planned), len(ENTRY)), not missing, missing[:8])
+                   "shapes, a caller's note list with its Part) were exercised" % (len(planned), len(ENTRY)), not missing, missing[:8])
     k1_pairs = {"unfold_part_alignment(%s)" % k for k in ALIGN_KINDS}
     ctx.obligation("footprint per (entry point, argument kind): the observed write set is EMPTY for every pair (known finding %s excluded); "
                    "%d pairs returned normally at least once, %d only raised (argument still unchanged)"
@@ -2024,7 +2745,7 @@ def run(ctx):
     cow_cases = []
     cow_bad = []
     cow_stats = defaultdict(int)
-    score_cases = [c for c in cases if c["kind"] == "score" and c["spec"]["as"] != "ScoreNoteArray"]
+    score_cases = [c for c in cases if c["kind"] == "score" and c["spec"]["as"] not in ("ScoreNoteArray", "NoteList")]
     for case in score_cases:
         for interval in ([2, "M", "up"], [3, "m", "down"]) if not quick else (rng.choice([[2, "M", "up"], [3, "m", "down"], [5, "P", "up"]]),):
             ob = observe_transpose(case, interval)
@@ -2065,6 +2786,84 @@ def run(ctx):
     if cowfail == [-1]:
         ctx.violation("Coq evaluation of the copy-then-modify model failed: " + cowdetail[:600], {"kind": "coq"}, no_input=True)
     ctx.log("footprints: %d cases, %d calls, %d (entry, kind) pairs, findings %s; transpose/heap model: %d" % (len(cases), n_calls, len(by_ek), dict(mut_entries), len(cow_terms)))
+
+    # ---- (b3) shallow copy + replace_refs on real objects against the aliasing heap model --------------
+    aterms, acases, a_bad = [], [], []
+    for i in range(150 if quick else 1500):
+        aspec = gen_alias_spec(rng)
+        try:
+            before, after = run_alias(aspec)
+        except Exception as e:
+            ctx.count("alias/raised %s" % type(e).__name__)
+            continue
+        ctx.evaluations += 1
+        nobj = len(before[0])
+        ctx.count("alias/%s" % ("nothing copied" if not aspec["sel"] else "all copied" if len(aspec["sel"]) == nobj else "some copied"))
+        if aspec["sel"] and any(a[0] == "list" and after[1][a[1]] for o in aspec["sel"] for a in before[0][o]):
+            ctx.nontrivial(["alias", aspec])
+        # direct oracle (the property): every original object and every original list is as before; no copy holds an original list
+        ok_arg = after[0][:nobj] == before[0] and after[1][: len(before[1])] == before[1]
+        shared = [a for row in after[0][nobj:] for a in row if a[0] == "list" and a[1] < len(before[1])]
+        if not ok_arg or shared:
+            a_bad.append(len(acases))
+        acases.append((aspec, before, after))
+        aterms.append(ctuple([coq_heap(before), "(@nil nat)" if not aspec["sel"] else clist([cnat(o) for o in aspec["sel"]]), coq_heap(after)]))
+    try:
+        afail = ctx.coq_failing("alias", "From PV Require Import Lib.Base Model.C20 Model.C20_Mut Model.C20_Alias.", "", aterms, "alias_ok", shard=400)
+        adetail = ""
+    except RuntimeError as e:
+        afail, adetail = [-1], str(e)[-800:]
+    ctx.obligation("correspondence: copy.copy + ReplaceRefMixin.replace_refs on %d populations of real Note / Slur / Tuplet objects (ties, slur and "
+                   "tuplet lists, links to copied and to uncopied objects) leave the heap Model.C20_Alias.variant FreshList computes: originals and "
+                   "their lists untouched, every list of a copy newly allocated, references mapped through o_map (Coq alias_ok)" % len(aterms),
+                   not afail, adetail or afail[:5])
+    ctx.obligation("direct oracle: after copying and replacing references every original object and list is as before and no copy holds a list of an "
+                   "original (%d populations)" % len(acases), not a_bad, a_bad[:5])
+    for i in sorted(set(a_bad) | {j for j in afail if j >= 0})[:1]:
+        aspec, before, after = acases[i]
+        ctx.violation("shallow copy + replace_refs (the mechanism of unfolding a Part): objects %s copied; reference attributes / lists before %s, "
+                      "afterwards %s (objects: originals then copies; ('list', a) = the list at address a; lists: address -> elements)"
+                      % (aspec["sel"], json.dumps(before, default=str)[:500], json.dumps(after, default=str)[:700]),
+                      {"kind": "alias", "spec": aspec, "before": before, "after": after})
+    if afail == [-1]:
+        ctx.violation("Coq evaluation of the aliasing model failed: " + adetail[:600], {"kind": "coq"}, no_input=True)
+
+    # ---- (b4) array views that copy: slice_notearray_by_time against the buffer / view model ------------------
+    sterms, scases, s_bad = [], [], []
+    for i in range(200 if quick else 2000):
+        sc_ = gen_slice_case(rng)
+        try:
+            res, after = run_slice(sc_)
+        except Exception as e:
+            ctx.count("slice/raised %s" % type(e).__name__)
+            continue
+        ctx.evaluations += 1
+        act = [r for r in sc_["rows"] if (sc_["start"] <= r[0] < sc_["stop"]) or (r[0] < sc_["start"] < r[0] + r[1])]
+        ctx.count("slice/%s, %s" % ("clipping" if sc_["clip"] else "no clipping",
+                                    "nothing selected" if not act else "everything selected" if len(act) == len(sc_["rows"]) else "some rows selected"))
+        if sc_["clip"] and any(r[0] < sc_["start"] or r[0] + r[1] > sc_["stop"] for r in act):
+            ctx.nontrivial(["slice", sc_])
+        if after != sc_["rows"] or len(res) != len(act) or (not sc_["clip"] and res != act):
+            s_bad.append(len(scases))
+        scases.append((sc_, res, after))
+        sterms.append(ctuple([coq_rows(sc_["rows"]), cz(sc_["start"]), cz(sc_["stop"]), cbool(sc_["clip"]), coq_rows(res), coq_rows(after)]))
+    try:
+        sfail = ctx.coq_failing("slice", "From PV Require Import Lib.Base Model.C20 Model.C20_Mut Model.C20_Array.", "", sterms, "slice_ok", shard=500)
+        sdetail = ""
+    except RuntimeError as e:
+        sfail, sdetail = [-1], str(e)[-800:]
+    ctx.obligation("correspondence: slice_notearray_by_time on %d integer note arrays (sorted and unsorted rows, windows before / inside / after the "
+                   "notes, with and without clipping): the argument afterwards and the selected rows are those of Model.C20_Array.slice TakeCopy "
+                   "(Coq slice_ok; what clipping writes into a row is not compared)" % len(sterms), not sfail, sdetail or sfail[:5])
+    ctx.obligation("direct oracle: the note array given to slice_notearray_by_time is unchanged, the slice has one row per active note and, without "
+                   "clipping, exactly those rows (%d arrays)" % len(scases), not s_bad, s_bad[:5])
+    for i in sorted(set(s_bad) | {j for j in sfail if j >= 0})[:1]:
+        sc_, res, after = scases[i]
+        ctx.violation("slice_notearray_by_time(rows %s [onset_div, duration_div, pitch], %s, %s, clip_onset_duration=%s) returned %s and left the "
+                      "argument as %s" % (sc_["rows"], sc_["start"], sc_["stop"], sc_["clip"], res, after),
+                      {"kind": "slice", "case": sc_, "result": res, "after": after})
+    if sfail == [-1]:
+        ctx.violation("Coq evaluation of the array model failed: " + sdetail[:600], {"kind": "coq"}, no_input=True)
 
     # ---- negative side + sensitivity of the observer -------------------------------------
     must, may = inplace_ops()
@@ -2109,7 +2908,8 @@ def run(ctx):
     sens_n = 0
     for i in range(10 if quick else 60):
         for kindname, mk in (("score", lambda: {"kind": "score", "spec": gen_score_spec(rng)}), ("perf", lambda: {"kind": "perf", "spec": gen_perf_spec(rng)}),
-                             ("align", lambda: {"kind": "align", "spec": gen_alignment_spec(rng)})):
+                             ("align", lambda: {"kind": "align", "spec": gen_alignment_spec(rng)}),
+                             ("notelist", lambda: {"kind": "score", "spec": dict(gen_score_spec(rng), **{"as": "NoteList", "notelist_order": "shuffled"})})):
             case = mk()
             try:
                 kind, args = build_case(case)
@@ -2142,11 +2942,24 @@ def run(ctx):
 def replay(obj):
     r = obj.get("replay", obj)
     if r.get("kind") == "history":
-        obs, unchanged = run_history(r["spec"], r["history"])
-        print("container :", r["spec"])
+        obs, unchanged, labels = run_history(r["spec"], r["history"])
+        print("container :", json.dumps(r["spec"], default=str)[:800])
+        print("parts     :", labels, "(positions in [c[0] .. c[len-1]])")
         print("history   :", r["history"])
         print("observed  :", obs, "(container unchanged: %s)" % unchanged)
-        print("expected  :", oracle_history(r["spec"]["labels"], r["history"]))
+        print("expected  :", oracle_history(labels, r["history"]))
+        return 0
+    if r.get("kind") == "mhistory":
+        ob = run_mhistory(r["type"], r["arg"], r["history"])
+        print("container :", r["type"], "built from", r["arg"])
+        print("history   :", r["history"])
+        if ob is None:
+            print("observed  : the constructor raised")
+            return 0
+        print("at constr.:", "parts", ob[1], "structure leaves", ob[2])
+        print("observed  :", ob[0])
+        print("expected  :", oracle_mhistory(r["arg"], r["history"]), "(None = not constrained)")
+        print("afterwards:", ob[3] or "len / indexing / iteration agree")
         return 0
     if r.get("kind") == "footprint":
         prm = dict(r["params"])
@@ -2158,6 +2971,20 @@ def replay(obj):
         print("schedule  :", r["schedule"])
         print("stored    :", json.dumps(r["finding"], default=str)[:800])
         print("now       :", json.dumps(findings, default=str)[:1600] if findings else "no finding (argument unchanged, results repeatable)")
+        return 0
+    if r.get("kind") == "slice":
+        res, after = run_slice(r["case"])
+        print("case      :", r["case"])
+        print("result    :", res)
+        print("argument  :", after, "(unchanged: %s)" % (after == r["case"]["rows"]))
+        print("stored    :", r["result"], r["after"])
+        return 0
+    if r.get("kind") == "alias":
+        before, after = run_alias(r["spec"])
+        print("population:", json.dumps(r["spec"])[:800])
+        print("before    :", before)
+        print("after     :", after)
+        print("stored    :", json.dumps(r["after"], default=str)[:800])
         return 0
     if r.get("kind") == "transpose":
         ob = observe_transpose(r["case"], r["interval"])
